@@ -72,4 +72,18 @@ DecodeOK ==
             /\ { d.idx[i] : i \in 0 .. (k - 1) } = p.S
             /\ ~d.singular                             \* MDS: any k rows of the generator are independent
             /\ \A row \in 0 .. (k - 1) : d.out[row] = Ident(k)[row]
+
+(***************************************************************************)
+(* A lemma about the code, not a property: on every decoding matrix the    *)
+(* API can produce (sources in their own slots after the shuffle) the      *)
+(* diagonal element is a usable pivot at every step, so the off-diagonal   *)
+(* pivot search, the row swaps and the final column swaps of invert_mat    *)
+(* are never exercised by the codec (they are reachable only through the   *)
+(* internal function, with arbitrary matrices).                            *)
+(***************************************************************************)
+DiagonalPivotsSuffice ==
+    p.kind = "dec" =>
+        LET k   == p.k
+            idx == IF p.arr = "api" THEN ApiOrder(p.S, k) ELSE IF p.arr = "rev" THEN RevOrder(p.S, k) ELSE RotOrder(p.S, k)
+        IN  ~Decode(EncRowsOn(k, p.S, M), idx, k, M).offdiag
 =============================================================================
